@@ -127,7 +127,7 @@ Proof.
       destruct (negb _); [discriminate|]. destruct (255 <=? t_version t); [discriminate|].
       injection H as <-. split; [|reflexivity]. unfold wf_tuple. cbn [t_deltas t_xmin].
       constructor; [reflexivity|exact Hwf].
-  - injection H as <-. unfold delete. destruct (t_xmax t); split; try reflexivity; exact Hwf.
+  - injection H as <-. unfold delete. split; [exact Hwf|reflexivity].
   - injection H as <-. split; [|reflexivity]. unfold wf_tuple, vacuum. cbn [t_deltas t_xmin].
     apply Forall_forall. intros d Hd. apply take_needed_incl in Hd.
     unfold wf_tuple in Hwf. rewrite Forall_forall in Hwf. now apply Hwf.
@@ -205,7 +205,7 @@ Definition spec_ev (vk : list kind) (t : tuple) (h : hist) (e : tev) : hist :=
                 end
     | _ => h
     end
-  | EDel xid => match h_deleter h with Some _ => h | None => {| h_versions := h_versions h; h_deleter := Some xid |} end
+  | EDel xid => {| h_versions := h_versions h; h_deleter := Some xid |}
   | EVac _ => h
   end.
 
@@ -272,11 +272,9 @@ Proof.
         injection Hap as <-. reflexivity.
       * apply Forall_app. split; [exact Hall|]. constructor; [reflexivity|constructor].
       * eexists. reflexivity.
-  - injection Hap as <-. unfold delete in *. rewrite <- Hd in *.
-    destruct (h_deleter h) as [x|] eqn:E.
-    + constructor; try assumption; [congruence|now exists pre].
-    + constructor; cbn [h_versions h_deleter t_xmin t_xmax]; try assumption; try reflexivity.
-      exists pre. rewrite Hlast. reflexivity.
+  - injection Hap as <-. unfold delete in *.
+    constructor; cbn [h_versions h_deleter t_xmin t_xmax]; try assumption; try reflexivity.
+    exists pre. rewrite Hlast. reflexivity.
   - injection Hap as <-. constructor; try assumption. exists pre. rewrite Hlast. reflexivity.
 Qed.
 
